@@ -27,6 +27,7 @@ func init() {
 		Oracle:  func() Oracle { return &c20Oracle{} },
 		Explore: exploreC20,
 		Exec:    execC20,
+		LaneP:   laneP_C20,
 	})
 }
 
@@ -323,7 +324,7 @@ func genC20Corrupt(r *Rng) *Plan {
 		}
 		g.P.Meta["base"] = "smime-example"
 	} else {
-		g.AddForest(ForestOpts{MaxEnts: 4, MaxDepth: 3, Mix: KeyMix{RSA1024: 1, EC: 6, Omit: 6}, MaxExts: 2, Dirs: r.Bool(), Aliases: r.Bool(), KeyIDs: true, Validity: valRelative, Manip: r.Bool()}, r.Bool())
+		g.AddForest(ForestOpts{Bulk: 30, MaxEnts: 4, MaxDepth: 3, Mix: KeyMix{RSA1024: 1, EC: 6, Omit: 6}, MaxExts: 2, Dirs: r.Bool(), Aliases: r.Bool(), KeyIDs: true, Validity: valRelative, Manip: r.Bool()}, r.Bool())
 		for _, e := range g.Ents {
 			files = append(files, e.Path(), e.PemPath(), e.PemPath())
 		}
@@ -416,6 +417,49 @@ func hostilePlan(seed uint64, mut, desc string, isProfile bool, second uint8) *P
 	if second != 0 {
 		p.Add(Op{K: "run", Flags: second, Tags: []string{"decide"}})
 	}
+	return p
+}
+
+// genC20Boundary: validities at the edges of what a certificate can carry (years 0 and 9999), spelled
+// as from/until/duration in a certificate or in its profile, in a machine zone east or west of UTC:
+// a configured date is a local midnight, so the year the encoder sees and the year a range check
+// sees need not be the same.
+func genC20Boundary(r *Rng) *Plan {
+	froms := []string{"9999-12-31", "9999-12-30", "9999-01-01", "9990-01-01", "9998-12-31", "0001-01-01", "0000-01-01", "0000-12-31", "0001-01-02", "1950-01-01", "2049-12-31", "2050-01-01"}
+	durs := []string{"1d", "2d", "0d", "1y", "10y", "9y11m30d", "9999y", "9998y", "9998y11m30d", "1m", "12m", "365d", "366d", "7949y", "7950y"}
+	untils := []string{"9999-12-31", "9999-01-01", "0001-01-01", "0000-01-01", "0000-01-02", "2049-12-31", "2050-01-01", "1950-01-01", "1949-12-31"}
+	v := &ValSpec{}
+	switch r.Intn(4) {
+	case 0:
+		v.From, v.Duration = Pick(r, froms), Pick(r, durs)
+	case 1:
+		v.From, v.Until = Pick(r, froms), Pick(r, untils)
+	case 2:
+		v.Until = Pick(r, untils)
+	case 3:
+		v.Duration = Pick(r, []string{"7970y", "7980y", "7990y", "8000y", "9999y", "99999y"})
+	}
+	p := &Plan{Prop: "C20", Seed: r.U64(), GranNs: 1e6, Meta: map[string]string{"arm": "hostile", "hostile": fmt.Sprintf("validity %s/%s/%s", v.From, v.Until, v.Duration)}}
+	p.TZ = Pick(r, []string{"UTC", "Europe/Berlin", "Asia/Tokyo", "Pacific/Kiritimati", "America/New_York", "Pacific/Pago_Pago", "fixed:+05:30", "fixed:-03:30", "Asia/Kathmandu"})
+	p.Meta["boundary"] = p.TZ
+	p.Add(Op{K: "put-ent", Spec: &EntitySpec{ID: "root", Name: "root", Ext: "yaml", Subject: []RDN{{"CN", "Root"}}}})
+	e := &EntitySpec{ID: "b", Name: "boundary", Ext: Pick(r, []string{"yaml", "json"}), Subject: []RDN{{"CN", "Boundary"}}}
+	if e.Ext == "json" {
+		e.Format = "json"
+	}
+	if r.Bool() {
+		e.Issuer = "root"
+	}
+	if r.Chance(1, 3) {
+		pr := &ProfileSpec{Name: "bp", File: "bp", Ext: "yaml", Validity: v}
+		p.Add(Op{K: "put-prof", Prof: pr})
+		e.Profile = "bp"
+	} else {
+		e.Validity = v
+	}
+	p.Add(Op{K: "put-ent", Spec: e})
+	p.Add(Op{K: "run", Flags: DefaultFlags, Tags: []string{"decide"}})
+	p.Add(Op{K: "run", Flags: uint8(1 + r.Intn(31)), Tags: []string{"decide"}})
 	return p
 }
 
@@ -754,6 +798,9 @@ func exploreC20(t *testing.T, seed uint64, idx int, tier string, sink *Sink) {
 		plan = genC20Corrupt(r)
 	case 3, 4:
 		plan = genC20Hostile(r)
+		if idx%32 == 19 || idx%32 == 20 {
+			plan = genC20Boundary(r)
+		}
 	case 5:
 		if idx%16 == 5 {
 			plan = genC20Merge(r)
@@ -815,4 +862,79 @@ func exploreC20(t *testing.T, seed uint64, idx int, tier string, sink *Sink) {
 		sink.Cell("odd:" + plan.Meta["odd"])
 	}
 	sink.Report(w)
+	if len(w.Viol) == 0 && w.Harness == "" && r.Chance(1, 3) {
+		laneP_C20(t, plan, w, sink)
+	}
+}
+
+var slowKeyRx = regexp.MustCompile(`RSA-(2048|4096|8192)`)
+
+// laneP_C20: the same directory contents in front of the real binary. What lane S cannot reach is
+// the command line's own code (flag handling, consent prompt, the log statements that format what
+// was read) and the native back end's reads; a Go panic or fatal error in the output, or death by a
+// signal, is the violation. Worlds with read faults are skipped (a real disk has none to offer) and
+// so are worlds that name a slow RSA size (real entropy, real key generation).
+func laneP_C20(t *testing.T, plan *Plan, w *World, sink *Sink) {
+	if gopkiBin() == "" || w == nil || plan.Meta["arm"] == "direct" {
+		return
+	}
+	for i, rr := range w.Runs {
+		if !rr.Op.HasTag("decide") || len(rr.Op.Faults) > 0 || rr.Op.Flags&FlagE != 0 {
+			continue
+		}
+		slow := false
+		for _, e := range rr.Before {
+			if slowKeyRx.MatchString(e.Data) || len(e.Data) > 1<<20 {
+				slow = true
+			}
+		}
+		if slow {
+			continue
+		}
+		dir, err := scratchDir()
+		if err != nil {
+			sink.res.Harness = append(sink.res.Harness, err.Error())
+			return
+		}
+		stop := false
+		func() {
+			defer removeAll(dir)
+			if err := materialize(dir, rr.Before, w.FS.dirs); err != nil {
+				// a name the real file system refuses (NUL, over-long): nothing to run
+				sink.Cell("lane:P:not-materialisable")
+				return
+			}
+			yes := "y\n"
+			res, err := runBinary(dir, Mix(plan.Seed, uint64(90+i)), flagArgs(rr.Op.Flags), &yes, plan.TZ)
+			if err != nil {
+				sink.res.Harness = append(sink.res.Harness, "lane P run: "+err.Error())
+				stop = true
+				return
+			}
+			sink.Cell("lane:P")
+			if res.Exit != 0 {
+				sink.Cell("lane:P:exit-nonzero")
+			}
+			if strings.Contains(res.Stdout, "panic: ") || strings.Contains(res.Stdout, "fatal error: ") || strings.Contains(res.Stdout, "goroutine 1 [") || res.Exit < 0 || res.Exit == 2 {
+				cls := "panic"
+				if m := lanePanicFn.FindStringSubmatch(res.Stdout); m != nil {
+					cls = m[1]
+				}
+				sink.LaneViolation(plan, "laneP:binary-crashed:"+cls, fmt.Sprintf("flags=%d exit=%d output: %s", rr.Op.Flags, res.Exit, tailStr(res.Stdout, 1500)))
+				stop = true
+			}
+		}()
+		if stop {
+			return
+		}
+	}
+}
+
+var lanePanicFn = regexp.MustCompile(`(?m)^github\.com/wokdav/gopki/([A-Za-z0-9_/.()*]+)\(`)
+
+func tailStr(s string, n int) string {
+	if len(s) > n {
+		return "..." + s[len(s)-n:]
+	}
+	return s
 }
